@@ -178,7 +178,9 @@ def threads(p1: int, p2: int, t1: int, t2: int, forced: List[int], copy_on: bool
         if p2 == p1:
             return ctx.done(True)
         pre, tg = [p1, p2], [t1, t2]
-    ok, why, steps = scenario(Oracle(pre, tg, forced, []), ctx.S('discard_by'), copy_on, body_raises)
+    copy_on, body_raises = (True if copy_on else False), (True if body_raises else False)
+    with ctx.untraced():
+        ok, why, steps = scenario(Oracle(pre, tg, forced, []), ctx.S('discard_by'), copy_on, body_raises)
     if p1 < steps:
         ctx.mark('preempted')
     return ctx.done(ok, 'preempted')
